@@ -16,8 +16,48 @@ use crate::handlers::server_capabilities;
 const CRATE_NAME: &str = env!("CARGO_PKG_NAME");
 const CRATE_VERSION: &str = env!("CARGO_PKG_VERSION");
 
+/// Verification hook (feature `verif-hooks`, off by default): a harness injects an in-memory
+/// `lsp_server::Connection` plus the async inbox that replaces the stdio/tcp transport and the
+/// blocking receiver pump of `AsyncConnection::from_sync`.
+#[cfg(feature = "verif-hooks")]
+pub mod verif_hooks {
+    use std::cell::RefCell;
+
+    use lsp_server::{Connection, Message};
+    use tokio::sync::mpsc::UnboundedReceiver;
+
+    thread_local! {
+        static INJECTED: RefCell<Option<(Connection, UnboundedReceiver<Message>)>> =
+            const { RefCell::new(None) };
+    }
+
+    /// Stand-in for `lsp_server::IoThreads` (there are no I/O threads in simulation).
+    pub struct NoThreads;
+
+    impl NoThreads {
+        pub fn join(self) -> std::io::Result<()> {
+            Ok(())
+        }
+    }
+
+    /// Provide the connection the next `run_ls` call on this thread will use.
+    pub fn inject(connection: Connection, inbox: UnboundedReceiver<Message>) {
+        INJECTED.with(|slot| *slot.borrow_mut() = Some((connection, inbox)));
+    }
+
+    pub(super) fn take_injected() -> (Connection, NoThreads, UnboundedReceiver<Message>) {
+        let (connection, inbox) = INJECTED
+            .with(|slot| slot.borrow_mut().take())
+            .expect("verif-hooks: no connection injected on this thread");
+        (connection, NoThreads, inbox)
+    }
+}
+
 #[allow(unused)]
 pub async fn run_ls(cmd_args: CmdArgs) -> Result<(), Box<dyn Error + Sync + Send>> {
+    #[cfg(feature = "verif-hooks")]
+    let (connection, threads, verif_inbox) = verif_hooks::take_injected();
+    #[cfg(not(feature = "verif-hooks"))]
     let (connection, threads) = match cmd_args.communication {
         cmd_args::Communication::Stdio => ::lsp_server::Connection::stdio(),
         cmd_args::Communication::Tcp => {
@@ -42,6 +82,9 @@ pub async fn run_ls(cmd_args: CmdArgs) -> Result<(), Box<dyn Error + Sync + Send
     connection.initialize_finish(id, initialize_data)?;
 
     // Create async connection wrapper
+    #[cfg(feature = "verif-hooks")]
+    let async_connection = AsyncConnection::verif_from_parts(connection, verif_inbox);
+    #[cfg(not(feature = "verif-hooks"))]
     let async_connection = AsyncConnection::from_sync(connection);
     main_loop::main_loop(async_connection, initialization_params, cmd_args).await?;
     threads.join()?;
